@@ -59,15 +59,31 @@ def run(bid, props):
             r = sh([os.path.join(ROOT, "check"), prop, "quick"], env=env)
             lines = [l.strip() for l in r.stdout.splitlines()
                      if l.startswith(("VIOLATION", "HARNESS", "NOT-REPRO", "NON-DET")) or l.strip().startswith("fingerprint:")]
-            results[prop] = {"rc": r.returncode, "lines": lines[:6]}
-            print(f"{bid} {prop} rc={r.returncode} {' | '.join(lines[:3])[:300]}", flush=True)
+            # how much was explored, next to what the same check explores on /repo itself: a check that
+            # silently explores (much) less on the refactored code has become vacuous there
+            import re
+            m = re.search(r"\[%s quick\] states=(\d+) transitions=(\d+) evaluations=(\d+)" % prop, r.stdout)
+            got = tuple(map(int, m.groups())) if m else None
+            ref = None
+            try:
+                ev = json.load(open(os.path.join(ROOT, "evidence", prop + ".json")))
+                if ev.get("tier") == "quick":
+                    c = ev["coverage"]
+                    ref = (c.get("states"), c.get("transitions"), c.get("evaluations"))
+            except Exception:  # noqa: BLE001
+                pass
+            thin = bool(got and ref and ref[0] and ref[2] and (got[0] < 0.5 * ref[0] or got[2] < 0.5 * ref[2]))
+            results[prop] = {"rc": r.returncode, "lines": lines[:6], "explored": got, "explored_on_repo": ref,
+                             "explores_much_less_than_on_repo": thin}
+            print(f"{bid} {prop} rc={r.returncode} explored={got} on-repo={ref}{' THIN' if thin else ''} "
+                  f"{' | '.join(lines[:3])[:300]}", flush=True)
     finally:
         shutil.rmtree(scratch, ignore_errors=True)
     mp = os.path.join(d, "results.json")
     old = json.load(open(mp)) if os.path.exists(mp) else {}
     old.update(results)
     json.dump(old, open(mp, "w"), indent=1)
-    return all(v["rc"] == 0 for v in results.values())
+    return all(v["rc"] == 0 and not v.get("explores_much_less_than_on_repo") for v in results.values())
 
 
 if __name__ == "__main__":
